@@ -4,6 +4,11 @@ import json, os, sys, importlib
 ROOT = os.path.dirname(os.path.dirname(os.path.abspath(__file__)))
 sys.path.insert(0, ROOT)
 meta = json.load(open(os.path.join(ROOT, 'tools', 'manifest_meta.json')))
+import glob
+for f in sorted(glob.glob(os.path.join(ROOT, 'tools', 'meta', 'C*.json'))):
+    pid = os.path.basename(f)[:-5]
+    if pid not in meta:
+        meta[pid] = json.load(open(f))
 props = [json.loads(l)['id'] for l in open(os.path.join(ROOT, 'properties.jsonl'))]
 checks, na = [], []
 for pid in props:
